@@ -172,15 +172,26 @@ SharedSeeds == {[kind |-> "cols", cols |-> <<"a", "b">>, args |-> <<<<"l", <<V1,
                 [kind |-> "cols", cols |-> <<"key", "a">>, args |-> <<<<"s", VX>>, <<"l", <<None>>>>>>],
                 [kind |-> "rows", hdrs |-> <<"a", "c", "b">>, rows |-> <<<<V1, V2, None>>, <<None, VX, V1>>, <<V2, V2, V2>>>>],
                 [kind |-> "rows", hdrs |-> <<"a", "b">>, rows |-> <<>>]}
+\* which object of the caller a call is handed / an edit touches
+ObjOf(op) == CASE op \in {"NewMap", "NewMapKw", "UpdateMap", "DeriveMap", "MapSet", "MapDel"} -> "m"
+               [] op \in {"RenameMap", "RenameMapKw", "RnSet", "RnDel"} -> "rn"
+               [] op \in {"NewRecs", "AddRecs", "IAddRecs", "AddRec1", "IAddRec1", "RecsAppend", "RecSet"} -> "recs"
+               [] op \in {"NewColsL", "SetColL", "DeriveConstL", "LAppend"} -> "L"
+               [] op \in {"NewRowsCs", "ProjectCs", "MinusCs", "ISubCs", "DoCs", "CsAppend", "CsPop"} -> "cs"
+               [] op \in {"TakeIx", "IxAppend"} -> "ix"
+               [] OTHER -> "none"
+\* edits = "no": call ; call.  "same": also call on X ; the caller edits X in place ; call on X (what a memo keyed on the object would get
+\* wrong).  "all": also call ; any edit ; any call.
 SharedFrom(Ws, S, edits) ==
     \/ hist = <<>> /\ \E w \in Ws : Caller([op |-> "Bind", av |-> ObserveArgs(w)], w)
     \/ Len(hist) = 1 /\ \E s \in S : Alloc("r1", Construct(s), [op |-> "New", rd |-> "r1", seed |-> s])
     \/ Len(hist) = 2 /\ ArgCalls
-    \/ Len(hist) = 3 /\ (ArgCalls \/ (edits /\ CallerEdits))
-    \/ Len(hist) = 4 /\ Last(hist).op \in CallerOps /\ ArgCalls
-NextShared == SharedFrom({W0}, {s \in SharedSeeds : s.kind = "cols"}, FALSE)
-NextSharedAll == SharedFrom(Worlds, SharedSeeds, FALSE)                       \* thorough tier: every world of objects, every seed table
-NextSharedEdit == SharedFrom({W0}, {s \in SharedSeeds : s.kind = "cols" /\ s.cols[1] = "a"}, TRUE)      \* thorough tier: call ; the caller edits an object in place ; call
+    \/ Len(hist) = 3 /\ ArgCalls
+    \/ Len(hist) = 3 /\ edits # "no" /\ CallerEdits /\ (edits = "same" => ObjOf(Last(hist').op) = ObjOf(Last(hist).op))
+    \/ Len(hist) = 4 /\ Last(hist).op \in CallerOps /\ ArgCalls /\ (edits = "same" => ObjOf(Last(hist').op) = ObjOf(Last(hist).op))
+NextShared == SharedFrom({W0}, {s \in SharedSeeds : s.kind = "cols"}, "same")
+NextSharedAll == SharedFrom(Worlds, SharedSeeds, "same")                       \* thorough tier: every world of objects, every seed table
+NextSharedEdit == SharedFrom({W0}, {s \in SharedSeeds : s.kind = "cols" /\ s.cols[1] = "a"}, "all")      \* thorough tier: call ; any edit ; any call
 View == <<heap, reg, out, av>>
 
 \* ---- properties -------------------------------------------------------------------------------
